@@ -644,8 +644,20 @@ static void op_cart(const std::vector< std::string > &w) {
         const double dlen = std::sqrt(dir.norm2());
         if (std::fabs(taudone - tau) > 1.e-9 * tau + 1.e-13 * kmax * diag / dlen)
           bad = "cartesian-absorbed-but-optical-depth-not-reached";
-        if (!in_box(cart_box, pf, 1.e-12, sc) ||
-            !in_box(cart->get_cell(it.get_index()), pf, 1.e-12, sc))
+        // (when the optical depth is used up exactly on a periodic face the position has already
+        // been wrapped to the opposite face: compare modulo the box length on periodic axes)
+        bool incell = false;
+        for (int kx = -1; kx <= 1 && !incell; ++kx)
+          for (int ky = -1; ky <= 1 && !incell; ++ky)
+            for (int kz = -1; kz <= 1 && !incell; ++kz) {
+              if ((kx && !cart_per[0]) || (ky && !cart_per[1]) || (kz && !cart_per[2]))
+                continue;
+              const CoordinateVector<> q(pf.x() + kx * cart_box.get_sides().x(), pf.y() + ky * cart_box.get_sides().y(),
+                                         pf.z() + kz * cart_box.get_sides().z());
+              if (in_box(cart->get_cell(it.get_index()), q, 1.e-12, sc))
+                incell = true;
+            }
+        if (!in_box(cart_box, pf, 1.e-12, sc) || !incell)
           bad = "cartesian-absorbed-outside-the-returned-cell";
       } else {
         if (taudone > tau * (1. + 1.e-9))
